@@ -1,5 +1,6 @@
 import CookModel.Lemmas.LooseComp
 import CookModel.Lemmas.LooseServings
+import CookModel.Lemmas.LooseLine
 /-
   C17, wave 5 (tag `bl17`): filler inside component bodies, from the component parsers up to the
   recipe.
@@ -348,14 +349,22 @@ theorem bl17_runBlock_stepF (segs : List SegF) (cs : CharSpec) (ext : Ext) (oldS
 inductive DocItemF where
   | stepF (segs : List SegF)
   | other (d : DocItem)
+  /-- a section line with a trailing line comment `lc` -/
+  | sectionLC (name : Option (List Tok)) (p : SPad) (lc : Tok)
+  /-- a `>>` line with a trailing line comment `lc` -/
+  | metaLC (key value : List Tok) (p : MPad) (lc : Tok)
 
 def DocItemF.spell : DocItemF → List Tok
   | .stepF segs => segs.flatMap SegF.spell
   | .other d => d.spell
+  | .sectionLC name p lc => spellSection name p ++ [lc]
+  | .metaLC k v p lc => spellMeta k v p ++ [lc]
 
 def DocItemF.clean : DocItemF → DocItem
   | .stepF segs => .step (segs.map SegF.clean)
   | .other d => d
+  | .sectionLC name p _ => .sectionLine name p
+  | .metaLC k v p _ => .metaLine k v p
 
 /-- side conditions of a block with filler: those of its segments, and the shape of a multi-line
     block (read on the spelling with filler); the clean block satisfies the round-trip conditions -/
@@ -363,6 +372,8 @@ def DocItemF.OK (cs : CharSpec) (ext : Ext) : DocItemF → Prop
   | .stepF segs => segsFOK cs ext segs ∧ stepBlockOK (segs.flatMap SegF.spell) = true ∧
       stepShape (segs.flatMap SegF.spell) = true
   | .other d => d.ok cs ext = true
+  | .sectionLC name p lc => sectionOK cs name p = true ∧ lc.kind = .lineComment
+  | .metaLC k v p lc => metaOK cs k v p = true ∧ lc.kind = .lineComment
 
 theorem bl17_runBlock_itemF (cs : CharSpec) (ext : Ext) (hsp : cs.uws ' ' = true) (d : DocItemF) (h : d.OK cs ext)
     (ts : List Tok) (hs : Spells ts d.spell) (hrun : RunAt (baseOff ts) ts) (evs0 : Array (Ev α)) (panic : Option String) :
@@ -375,6 +386,22 @@ theorem bl17_runBlock_itemF (cs : CharSpec) (ext : Ext) (hsp : cs.uws ' ' = true
       (stepBlockOK_transfer hs h2)
     exact ⟨[.start .step] ++ e ++ [.stop .step], arr, g1, by rw [g2]; simp, e, rfl, g3⟩
   | other d => exact rtd_runBlock_item cs ext d h ts hs hrun evs0 panic
+  | sectionLC name p lc =>
+    obtain ⟨ev, h1, h2⟩ := bl17_runBlock_section_lc (α := α) name p lc h.2 cs ext true ts evs0 panic h.1 hs hrun
+    exact ⟨[ev], _, h1, by simp, ev, rfl, h2⟩
+  | metaLC k v p lc =>
+    obtain ⟨ev, h1, h2⟩ := bl17_runBlock_meta_lc (α := α) k v p lc h.2 cs ext ts evs0 panic h.1 hs hrun
+    exact ⟨[ev], _, h1, by simp, ev, rfl, h2⟩
+
+theorem bl17_singleShape_snoc (l : List Tok) (t : Tok) (h : singleShape l = true) (ht : t.kind ≠ .newline) :
+    singleShape (l ++ [t]) = true := by
+  unfold singleShape singleShapeK at *
+  simp only [Bool.and_eq_true, List.map_append, List.map_cons, List.map_nil, List.all_append, List.all_cons, List.all_nil,
+    Bool.and_true] at h ⊢
+  refine ⟨?_, h.2, by simpa using ht⟩
+  cases l with
+  | nil => simp at h
+  | cons a r => simpa using h.1
 
 theorem bl17_itemF_shape (cs : CharSpec) (ext : Ext) (d : DocItemF) (h : d.OK cs ext) : blockShape d.spell = true := by
   cases d with
@@ -382,6 +409,12 @@ theorem bl17_itemF_shape (cs : CharSpec) (ext : Ext) (d : DocItemF) (h : d.OK cs
     obtain ⟨-, -, h3⟩ := h
     simp only [blockShape, DocItemF.spell, h3, Bool.or_true]
   | other d => exact rtd_item_shape cs ext d h
+  | sectionLC name p lc =>
+    have h1 := rtd_section_shape cs name p h.1
+    simp only [blockShape, DocItemF.spell, bl17_singleShape_snoc _ lc h1 (by rw [h.2]; decide), Bool.true_or]
+  | metaLC k v p lc =>
+    have h1 := rtd_meta_shape cs k v p h.1
+    simp only [blockShape, DocItemF.spell, bl17_singleShape_snoc _ lc h1 (by rw [h.2]; decide), Bool.true_or]
 
 theorem bl17_fold_itemsF (cs : CharSpec) (ext : Ext) (hsp : cs.uws ' ' = true) (doc : List (DocItemF × List Tok))
     (tds : List (List Tok × List Tok))
@@ -495,14 +528,54 @@ theorem bl17_parseRecipe_docF (env : Env) (hsp : env.cs.uws ' ' = true) (pre : L
   exact ⟨c, docSpans (docEntries blocks), hpr, by rw [h2, a1], by rw [h3, t1], by rw [h4, t2], by rw [h5, t3],
     by rw [h6, a4], h7, by simp [docSpans, a5], h8, h9, hserv⟩
 
-/-- **Filler inside component bodies: the same recipe.**  A well-formed document with filler inside
-    names, aliases, notes and units of its braces components / timers, against the clean document
-    (same blocks, same separators or any other, any leading blank lines): the two recipes have EQUAL
-    sections (steps, items, paragraphs), ingredient / cookware / timer tables, metadata map, inline
-    quantities, front matter, servings, and diagnostics of the same kinds. -/
+/-- a block without the blank padding of a section / `>>` line (the recipe does not depend on it) -/
+def DocItem.core : DocItem → DocItem
+  | .sectionLine name _ => .sectionLine name {}
+  | .metaLine k v _ => .metaLine k v {}
+  | d => d
+
+theorem bl17_absDocSecs_core : ∀ (items : List DocItem) (b : List SegX) (cur : Section) (n : Nat),
+    absDocSecs b cur n (items.map DocItem.core) = absDocSecs b cur n items := by
+  intro items
+  induction items with
+  | nil => intro b cur n; rfl
+  | cons d r ih => intro b cur n; cases d <;> simp only [List.map_cons, DocItem.core, absDocSecs, ih]
+
+theorem bl17_absDocSegs_core (items : List DocItem) : absDocSegs (items.map DocItem.core) = absDocSegs items := by
+  induction items with
+  | nil => rfl
+  | cons d r ih => cases d <;> simp only [List.map_cons, DocItem.core, absDocSegs, ih]
+
+theorem bl17_absDocMeta_core : ∀ (items : List DocItem) (m : List (Str × Str)),
+    absDocMeta m (items.map DocItem.core) = absDocMeta m items := by
+  intro items
+  induction items with
+  | nil => intro m; rfl
+  | cons d r ih => intro m; cases d <;> simp only [List.map_cons, DocItem.core, absDocMeta, ih]
+
+theorem bl17_absDocServings_core (env : Env) : ∀ (items : List DocItem) (sv : Option (List Nat)),
+    absDocServings env sv (items.map DocItem.core) = absDocServings env sv items := by
+  intro items
+  induction items with
+  | nil => intro sv; rfl
+  | cons d r ih => intro sv; cases d <;> simp only [List.map_cons, DocItem.core, absDocServings, ih]
+
+theorem bl17_isMeta_core (items : List DocItem) :
+    ((items.map DocItem.core).filter DocItem.isMeta).length = (items.filter DocItem.isMeta).length := by
+  induction items with
+  | nil => rfl
+  | cons d r ih => cases d <;> simp [List.filter_cons, DocItem.core, DocItem.isMeta, ih]
+
+/-- **Filler inside component bodies / trailing line comments on single-line blocks: the same recipe.**
+    A well-formed document with filler inside names, aliases, notes and units of its braces
+    components / timers and with line comments at the end of section and `>>` lines, against a clean
+    document with the same blocks up to the blank padding of its section / `>>` lines (any separators,
+    any leading blank lines): the two recipes have EQUAL sections (steps, items, paragraphs),
+    ingredient / cookware / timer tables, metadata map, inline quantities, front matter, servings, and
+    diagnostics of the same kinds. -/
 theorem bl17_docF_same (env : Env) (hsp : env.cs.uws ' ' = true) (pre' pre : List Tok) (docF : List (DocItemF × List Tok))
     (doc : List (DocItem × List Tok)) (hF : DocWFF α env pre' docF) (h : DocWF α env pre doc)
-    (hclean : (docCleanF docF).map (·.1) = doc.map (·.1)) :
+    (hclean : ((docCleanF docF).map (·.1)).map DocItem.core = (doc.map (·.1)).map DocItem.core) :
     ∃ c' c : Col α,
       parseRecipe env (render (pre' ++ docSpecF docF)) = ⟨some c', c'.diags, none⟩ ∧
       parseRecipe env (render (pre ++ docSpec doc)) = ⟨some c, c.diags, none⟩ ∧
@@ -516,7 +589,11 @@ theorem bl17_docF_same (env : Env) (hsp : env.cs.uws ' ' = true) (pre' pre : Lis
     rtx_parseRecipe_doc (α := α) env pre doc h.hpre h.ok h.simple h.plain h.ext h.seps h.spelled h.noFront
   have v : c.servings = absDocServings env none (doc.map (·.1)) :=
     bl17_parseRecipe_doc_servings env pre doc h.hpre h.ok h.simple h.plain h.ext h.seps h.spelled h.noFront c (by rw [p])
-  rw [hclean] at s' i' w' t' m' n' v'
+  rw [← bl17_absDocSecs_core, hclean, bl17_absDocSecs_core] at s'
+  rw [← bl17_absDocSegs_core, hclean, bl17_absDocSegs_core] at i' w' t'
+  rw [← bl17_absDocMeta_core, hclean, bl17_absDocMeta_core] at m'
+  rw [← bl17_isMeta_core, hclean, bl17_isMeta_core] at n'
+  rw [← bl17_absDocServings_core, hclean, bl17_absDocServings_core] at v'
   refine ⟨c', c, p', p, by rw [s', s], by rw [i', i], by rw [w', w], by rw [t', t], by rw [m', m], by rw [q', q],
     by rw [f', f], by rw [v', v], ?_⟩
   have hl : sp'.length = sp.length := by rw [n', n]
@@ -531,5 +608,56 @@ theorem bl17_docF_same (env : Env) (hsp : env.cs.uws ' ' = true) (pre' pre : Lis
     cases sp with
     | nil => simp at hl
     | cons b r2 => simpa using hl
+
+theorem bl17_core_simple {d d0 : DocItem} (h : d.core = d0.core) : d.simple = d0.simple := by
+  cases d <;> cases d0 <;> simp only [DocItem.core] at h <;> first | rfl | (cases h; rfl) | cases h
+
+theorem bl17_core_plain (env : Env) {d d0 : DocItem} (h : d.core = d0.core) (h0 : d0.plain env) : d.plain env := by
+  cases d <;> cases d0 <;> simp only [DocItem.core] at h <;> first | trivial | (cases h; exact h0) | cases h
+
+theorem bl17_core_extOK (env : Env) {d d0 : DocItem} (h : d.core = d0.core) (h0 : d0.extOK α env) : d.extOK α env := by
+  cases d <;> cases d0 <;> simp only [DocItem.core] at h <;> first | trivial | (cases h; exact h0) | cases h
+
+theorem bl17_core_step {segs : List SegX} {d0 : DocItem} (h : (DocItem.step segs).core = d0.core) : d0 = .step segs := by
+  cases d0 <;> simp only [DocItem.core] at h <;> first | (cases h; rfl) | cases h
+
+/-- the well-formedness of a document with filler from that of the clean document and the token-level
+    conditions on the spelling with filler -/
+theorem DocWFF.of_clean (env : Env) (pre' pre : List Tok) (docF : List (DocItemF × List Tok)) (doc : List (DocItem × List Tok))
+    (h : DocWF α env pre doc)
+    (hclean : ((docCleanF docF).map (·.1)).map DocItem.core = (doc.map (·.1)).map DocItem.core)
+    (hpre' : blankLinesOK pre' = true) (hok : ∀ d ∈ docF, d.1.OK env.cs env.ext)
+    (hseps : sepsOK (docF.map (·.2)) = true) (hw : WellSpelled env.cs (pre' ++ docSpecF docF))
+    (hfm : parseFrontmatter env.cs (render (pre' ++ docSpecF docF)) = none) : DocWFF α env pre' docF := by
+  have hmem : ∀ d ∈ docCleanF docF, ∃ d0 ∈ doc, d.1.core = d0.1.core := by
+    intro d hd
+    have : d.1.core ∈ ((docCleanF docF).map (·.1)).map DocItem.core :=
+      List.mem_map_of_mem (List.mem_map_of_mem hd)
+    rw [hclean] at this
+    obtain ⟨x, hx, e⟩ := List.mem_map.1 this
+    obtain ⟨d0, hd0, e0⟩ := List.mem_map.1 hx
+    exact ⟨d0, hd0, by rw [e0, e]⟩
+  refine ⟨hpre', hok, ?_, ?_, ?_, ?_, hseps, hw, hfm⟩
+  · intro d hd
+    obtain ⟨dF, hdF, rfl⟩ := List.mem_map.1 hd
+    have hO := hok dF hdF
+    cases hdd : dF.1 with
+    | stepF segs =>
+      obtain ⟨d0, hd0, e⟩ := hmem _ hd
+      simp only [hdd, DocItemF.clean] at e ⊢
+      have := bl17_core_step e
+      rw [← this]; exact h.ok d0 hd0
+    | other d' => rw [hdd] at hO; exact hO
+    | sectionLC name p lc => rw [hdd] at hO; exact hO.1
+    | metaLC k v p lc => rw [hdd] at hO; exact hO.1
+  · intro d hd
+    obtain ⟨d0, hd0, e⟩ := hmem d hd
+    rw [bl17_core_simple e]; exact h.simple d0 hd0
+  · intro d hd
+    obtain ⟨d0, hd0, e⟩ := hmem d hd
+    exact bl17_core_plain env e (h.plain d0 hd0)
+  · intro d hd
+    obtain ⟨d0, hd0, e⟩ := hmem d hd
+    exact bl17_core_extOK env e (h.ext d0 hd0)
 
 end Cook
